@@ -27,6 +27,9 @@ ASSUMPTIONS = ["outcome 1 of a Pauli-product measurement <-> eigenvalue -1 (paul
                "TemporaryAND / Adjoint(TemporaryAND) only on their documented domain (target |0> in / out)"]
 
 
+DEEPEN = ["Hadamard", "CNOT", "CY", "CZ", "Adjoint(TemporaryAND)", "QROM", "Adjoint(QROM)"]
+
+
 def _patched(force):
     from contextlib import nullcontext
     from unittest import mock
@@ -39,9 +42,14 @@ def check(spec):
     from mc import x_decomp as X
 
     force = bool(spec.get("force_compiler"))
-    op = X.build(spec["expr"])
+    if force:
+        op = X.build(spec["expr"])
     with _patched(force):
-        rule = dict(X.rules_for(op)).get(spec["rule"])
+        if force:
+            rule = dict(X.rules_for(op)).get(spec["rule"])
+        else:
+            op, rules = X.instance(spec["expr"])
+            rule = rules.get(spec["rule"])
         if rule is None:
             return bad(f"rule-vanished:{spec['key']}:{spec['rule']}", None, spec["rule"])
         params = X.decomp_args(op)[0]
@@ -82,5 +90,14 @@ def run(ctx):
     ctx.enumerate(cases, axis="(key, instance, rule)")
     gated = X.compiler_gated_cases(ctx.tier)
     ctx.enumerate(gated, axis="compiler-gated rules (gate forced open)")
+    # deepening: the operators that have measurement-based rules today get the thorough instance table in every tier
+    # (discovery itself stays dynamic: the sweep above records every rule of every key)
+    deep = X.cases_for_keys(DEEPEN, "thorough", exclude=cases)
+    ctx.enumerate(deep, axis="deepened instance table of operators with MCM rules")
+    deep_gated = X.compiler_gated_cases("thorough", only=deep)
+    ctx.enumerate(deep_gated, axis="compiler-gated rules, deepened")
     ctx.coverage.update(cov)
-    ctx.coverage["compiler_gated_cases"] = len(gated)
+    ctx.coverage["compiler_gated_cases"] = len(gated) + len(deep_gated)
+    ctx.coverage["deepened_keys"] = DEEPEN
+    ctx.coverage["alphabet"]["inputs"] = "every admissible computational-basis input of op.wires (spans the input space)"
+    ctx.coverage["bound"]["outcome_histories"] = "all 2^k"
